@@ -124,6 +124,7 @@ class Ctx:
     def __init__(self):
         self.side = []        # definitional constraints (fresh q/r, UF result ranges, contracts)
         self.divmemo = {}
+        self.splitmemo = {}
         self.n = 0
         self.panics = []      # (guard, site, message)
         self.unwound = []     # (guard, where): states cut by the unwinding bound
@@ -150,20 +151,54 @@ def wrap(ctx, t, lo, hi, ty):
     klo = (lo - tlo) // M; khi = (hi - tlo) // M
     if klo == khi:
         return IV(t - klo * M, ty, lo - klo * M, hi - klo * M)
-    k = ctx.fresh('wk'); r = ctx.fresh('wr')
-    ctx.side += [t - tlo == k * M + r, r >= 0, r < M, z3.Implies(ctx.cur_guard, z3.And(k >= klo, k <= khi))]
+    key = (t.get_id(), ty)
+    memo = ctx.divmemo.get(('wrap',) + key)
+    if memo is None:
+        k = ctx.fresh('wk'); r = ctx.fresh('wr')
+        ctx.side += [t - tlo == k * M + r, r >= 0, r < M]
+        memo = ctx.divmemo[('wrap',) + key] = (k, r, t)
+    k, r, _ = memo
+    ctx.side.append(z3.Implies(ctx.cur_guard, z3.And(k >= klo, k <= khi)))
     return IV(r + tlo, ty, tlo, thi)
+
+def split_const(ctx, t):
+    """t == base + k with k an integer constant (canonical base term), so that dividends that differ by a
+    multiple of the divisor share one (q, r) pair"""
+    key = t.get_id()
+    hit = ctx.splitmemo.get(key)
+    if hit is not None and hit[2].eq(t): return hit[0], hit[1]
+    s = z3.simplify(t)
+    k = 0; base = s
+    if z3.is_int_value(s): base = z3.IntVal(0); k = s.as_long()
+    elif z3.is_app_of(s, z3.Z3_OP_ITE):
+        # ite(c, b1 + k1, b2 + k2) == ite(c, b1 + (k1 - k2), b2) + k2
+        c_, x, y = s.children()
+        b1, k1 = split_const(ctx, x); b2, k2 = split_const(ctx, y)
+        k = k2
+        base = z3.If(c_, z3.simplify(b1 + (k1 - k2)), b2)
+    elif z3.is_add(s):
+        nums = [c for c in s.children() if z3.is_int_value(c)]
+        if nums:
+            k = sum(c.as_long() for c in nums)
+            rest = [c for c in s.children() if not z3.is_int_value(c)]
+            base = rest[0] if len(rest) == 1 else z3.Sum(rest)
+    ctx.splitmemo[key] = (base, k, t)
+    return base, k
 
 def fdiv(ctx, a, c):
     """floor quotient/remainder of IV a by positive int c"""
-    key = (a.t.get_id(), c)
-    if key not in ctx.divmemo:
-        q = ctx.fresh('q'); r = ctx.fresh('r')
-        ctx.side += [a.t == q * c + r, r >= 0, r < c]
-        ctx.divmemo[key] = (q, r, a.t)
-    q, r, _ = ctx.divmemo[key]
+    base, k = split_const(ctx, a.t)
+    j, k0 = divmod(k, c)
+    key = (base.get_id(), k0, c)
+    hit = ctx.divmemo.get(key)
+    if hit is None or not hit[2].eq(base):
+        q0 = ctx.fresh('q'); r = ctx.fresh('r')
+        ctx.side += [base + k0 == q0 * c + r, r >= 0, r < c]
+        hit = ctx.divmemo[key] = (q0, r, base)
+    q0, r, _ = hit
+    q = q0 + j if j else q0
     # quotient bounds hold under the path guard the interval was derived under
-    ctx.side.append(z3.Implies(ctx.cur_guard, z3.And(q >= a.lo // c, q <= a.hi // c)))
+    ctx.side.append(z3.Implies(ctx.cur_guard, z3.And(q0 >= a.lo // c - j, q0 <= a.hi // c - j)))
     return q, r, a.lo // c, a.hi // c
 
 def ite_iv(c, a, b):
@@ -253,10 +288,8 @@ class Exec:
         if c in self.fns: return c
         m = re.match(r'^<(?:[\w:]*::)?(\w+) as (?:[\w:]*::)?(\w+(?:<.*>)?)>::(\w+)$', c)
         if m:
-            k = (m.group(1), m.group(2), m.group(3))
+            k = (m.group(1), re.sub(r'\w+::', '', m.group(2)).replace(' ', ''), m.group(3))
             if k in self.impl: return self.impl[k]
-            k2 = (m.group(1), re.sub(r'<.*', '', m.group(2)), m.group(3))
-            if k2 in self.impl: return self.impl[k2]
             return None
         m = re.match(r'^(?:[\w:]*::)?(\w+)::(\w+)$', c)
         if m and (m.group(1), None, m.group(2)) in self.impl:
@@ -403,6 +436,7 @@ class Exec:
                     if p[1] >= len(v.f): raise Inconclusive('field %d of %r' % (p[1], v))
                     v = v.f[p[1]]
                 elif isinstance(v, Opaque): v = Opaque('field')
+                elif isinstance(v, Closure): v = v.caps[p[1]]
                 elif hasattr(v, 'field'): v = v.field(p[1])
                 else: raise Inconclusive('field of %r' % (v,))
             elif p[0] == 'downcast':
